@@ -26,7 +26,7 @@ META = {
 
 SIZES = {
     "quick": dict(mc="MC_Wire_emit.cfg", pairs="MC_Wire_pairs.cfg", nrand=4, nreplay=3000, chunk=170, thorough=False),
-    "thorough": dict(mc="MC_Wire_emitbig.cfg", pairs="MC_Wire_pairsbig.cfg", nrand=40, nreplay=None, chunk=400, thorough=True),
+    "thorough": dict(mc="MC_Wire_emitbig.cfg", pairs="MC_Wire_pairsbig.cfg", nrand=40, nreplay=60000, chunk=400, thorough=True),
 }
 
 
@@ -57,6 +57,9 @@ def validate(path, chunk, procs=None, timeout=1500):
     for i in range(0, len(lines), chunk):
         jobs.append((lines[i:i + chunk], list(range(i + 1, i + 1 + len(lines[i:i + chunk]))), timeout))
     procs = procs or max(2, min(10, lib.NCPU - 4))
+    cap = int(os.environ.get("VERIF_TLC_WORKERS", "0") or 0)      # shared machine: VERIF_TLC_WORKERS also caps the parallel validations
+    if cap:
+        procs = min(procs, max(2, cap))
     mms, notes, states = [], [], 0
     with cf.ThreadPoolExecutor(max_workers=procs) as ex:
         for m, n, st, bad in ex.map(_chunk, jobs):
@@ -69,6 +72,8 @@ def validate(path, chunk, procs=None, timeout=1500):
 
 
 # ---------------------------------------------------------------- signatures
+TIER = ["quick"]
+
 
 def label(ev):
     ty = ev["ty"]
@@ -95,6 +100,8 @@ def detail_class(ev, m):
     if "text-length" in m["tags"]:
         over = m["tlen"] - m["announced"]
         cls.append("over=%d" % over if ev["ty"]["k"] in ("float", "double", "dec", "int", "year", "date", "datetime", "timestamp", "time") else "over")
+    if ev["ty"]["k"] == "year" and st.get("t") == "i" and not any(st["be"]):
+        cls.append("zero")
     if st.get("t") == "n":
         cls.append("null")
     return ",".join(cls)
@@ -122,7 +129,7 @@ def describe(ev, m):
             "text_length": m.get("tlen"), "announced_length": m.get("announced"), "specification_length": m.get("announced_spec"),
             "text_column_definition": ev["tf"], "binary_column_definition": ev["bf"],
             "binary_row": ev["brow"] if len(ev["brow"]) < 80 else ev["brow"][:80] + ["..."],
-            "text_error": ev["terr"], "binary_error": ev["berr"], "engine_convert_back": ev["back"], "id": ev["id"], "seed": lib.seed()}
+            "text_error": ev["terr"], "binary_error": ev["berr"], "engine_convert_back": ev["back"], "id": ev["id"], "seed": lib.seed(), "tier": TIER[0]}
 
 
 # ---------------------------------------------------------------- the check
@@ -159,6 +166,7 @@ def binding_selftest(evs, scd):
 def check(tier):
     t0 = time.time()
     sz = SIZES[tier]
+    TIER[0] = tier
     binp = lib.build("c28")
     v = lib.Verdict(PID)
     rnd = random.Random(lib.seed())
@@ -287,15 +295,11 @@ def replay(path):
                 print(json.dumps(m)[:2000])
             return 1 if rep["mismatches"] else 0
     os.environ["VERIF_SEED"] = str(det["seed"])
-    tier = "thorough" if d.get("tier") == "thorough" else "quick"
+    TIER[0] = det.get("tier", "quick")
     with lib.Scratch() as scd:
-        for t in ([tier] if "tier" in d else ["quick", "thorough"]):
-            trace, _ = run_driver(binp, SIZES[t], scd, "replay-" + t, only={det["id"]})
-            mms, _, _, evl = validate(trace, 50, procs=1)
-            hit = [m for m in mms if evl[m["line"] - 1]["ddl"] == det["column"]]
-            if hit:
-                for m in hit:
-                    print("VIOLATION property=%s replay=%s" % (PID, path))
-                    print(json.dumps(describe(evl[m["line"] - 1], m))[:2500])
-                return 1
-        return 0
+        trace, _ = run_driver(binp, SIZES[TIER[0]], scd, "replay", only={det["id"]})
+        mms, _, _, evl = validate(trace, 50, procs=1)
+        for m in mms:
+            print("VIOLATION property=%s replay=%s" % (PID, path))
+            print(json.dumps(describe(evl[m["line"] - 1], m))[:2500])
+        return 1 if mms else 0
